@@ -126,6 +126,45 @@ def _case(args):
     return rec
 
 
+def _sentence_search(args):
+    """failing-input search after a broken obligation about the automaton: every sentence of the grammar up to a length bound is parsed by lark"""
+    g, plain_rules, maxlen = args
+    from lark import Lark
+    from lark.exceptions import UnexpectedInput
+    S = {}
+    for _round in range(40):
+        changed = False
+        for lhs, rhs in plain_rules:
+            parts = [()]
+            for is_term, name in rhs:
+                opts = [(name,)] if is_term else sorted(S.get(name, ()))
+                parts = [a + b for a in parts for b in opts if len(a) + len(b) <= maxlen][:400]
+                if not parts:
+                    break
+            cur = S.setdefault(lhs, set())
+            for w in parts:
+                if w not in cur and len(cur) < 400:
+                    cur.add(w); changed = True
+        if not changed:
+            break
+    rejected = []
+    from lark.exceptions import GrammarError
+    with guarded(20):
+        try:
+            p = Lark(g, parser='lalr')
+        except GrammarError:
+            return {'sentences': len(S.get('start', ())), 'rejected': [], 'grammar_error': True}
+        for w in sorted(S.get('start', ()), key=lambda w: (len(w), w)):
+            text = ''.join(LETTER[t] for t in w)
+            try:
+                p.parse(text)
+            except UnexpectedInput as e:
+                rejected.append({'text': text, 'error': type(e).__name__})
+                if len(rejected) >= 3:
+                    break
+    return {'sentences': len(S.get('start', ())), 'rejected': rejected}
+
+
 def _f15(args):
     from lark import Lark
     g, text = args
@@ -162,6 +201,9 @@ def run(ctx, res, focus='c02'):
         names = ex['rule_names']
         # (1) decision logic on lark's own lookaheads, (2) the same logic on the independent LALR(1) lookaheads
         cases.append({'op': 'lr_table', 'rows': ex['rows']}); meta.append(('own', rec, None))
+        T_ = len(ex['terms'])
+        cases.append({'op': 'lr0_check', 'rules': ex['rules'], 'items': ex['items'], 'kernels': ex['kernels'],
+                      'trans': [[q, [1, k] if k < T_ else [0, k - T_], q2] for q, row in enumerate(ex['rows']) for k, q2 in row['shifts']]}); meta.append(('lr0', rec, None))
         if all(x is not None for x in rec['spec_las']):
             cases.append({'op': 'lr_table', 'rows': [{'shifts': r['shifts'], 'las': s} for r, s in zip(ex['rows'], rec['spec_las'])]}); meta.append(('spec', rec, None))
         else:
@@ -173,6 +215,7 @@ def run(ctx, res, focus='c02'):
                               'start': ex['nts'].index('start')}); meta.append(('lang', rec, r))
     model = run_driver_parallel(cases, timeout=900)
     lang = {}
+    lr0_broken = []
     for (kind, rec, r), m in zip(meta, model):
         if 'error' in m and not isinstance(m['error'], bool):
             raise InfraError('driver: %s' % m['error'])
@@ -181,7 +224,12 @@ def run(ctx, res, focus='c02'):
     for (kind, rec, r), m in zip(meta, model):
         ex, g = rec['ex'], rec['grammar']
         T = len(ex['terms'])
-        if kind in ('own', 'spec') and focus != 'c02':
+        if kind in ('own', 'spec', 'lr0') and focus != 'c02':
+            continue
+        if kind == 'lr0':
+            res.count('lr0_automata_checked'); res.count('lr0_states', len(ex['items']))
+            if not m['ok']:
+                lr0_broken.append((rec, m))
             continue
         if kind == 'own':
             sr = any(any(s[0] == la for s in row['shifts']) for row in ex['rows'] for la, _c in row['las'])
@@ -276,3 +324,18 @@ def run(ctx, res, focus='c02'):
                                    'note': 'tokens reach the parser through a post-lexer that re-creates them with shifted coordinates' if r['end_tok'][0] < 100 and r['last_fed'][0] >= 100 else ''})
                 elif r.get('accepts') is not None and not (set(r['accepts']) - {ex['terms'].index('$END')}) <= set(r['expected']):   # $END is not a terminal of the grammar (the contextual lexer's set cannot contain it)
                     res.violation('accepts is not a subset of expected', {'grammar': g, 'text': r['text'], 'accepts': r['accepts'], 'expected': r['expected']})
+    # ---- lark's LR(0) automaton is not the automaton of the grammar (LR0.checkLR0 on the exported item sets/kernels/transitions failed): the tie to
+    # LR0.mem_closure_iff / checkLR0_sound is broken; search for a sentence the parser now rejects (all sentences up to length 7)
+    if lr0_broken and focus == 'c02':
+        found = pmap(_sentence_search, [(rec['grammar'], rec['ex']['plain_rules'], 7) for rec, _m in lr0_broken[:60]], chunksize=1)
+        for (rec, m), (st, out) in zip(lr0_broken[:60], found):
+            ex, g = rec['ex'], rec['grammar']
+            bad = m.get('states_not_closure_of_kernel', [])
+            detail = {'grammar': g, 'states_not_closure_of_kernel': [[[ex['rule_names'][ri], d] for ri, d in ex['items'][q]] for q in bad[:3]],
+                      'obligation': 'LR0.checkLR0 (LR0.checkLR0_sound, LR0.mem_closure_iff): every state is the LR(0) closure of its kernel, every transition leads to the advanced kernel'}
+            sr = any(any(s_[0] == la for s_ in row['shifts']) for row in ex['rows'] for la, _c in row['las'])
+            rr = any(len(c) > 1 for row in ex['rows'] for _la, c in row['las'])
+            if st == 'ok' and out['rejected'] and not sr and not rr and rec.get('lark_error') is None and ex['error'] is None:
+                res.violation('LALR rejects a sentence of a conflict-free grammar (its LR(0) item sets are not the closures of their kernels)', dict(detail, rejected=out['rejected'], text=out['rejected'][0]['text']))
+            else:
+                res.corr_break('lark\'s LR(0) automaton fails LR0.checkLR0 (a state is not the closure of its kernel, or a transition does not lead to the advanced kernel)', dict(detail, search=out if st == 'ok' else st))
